@@ -103,19 +103,21 @@ TSrvRead == /\ IsEvent("srvread")
                          /\ UNCHANGED tc
             /\ UNCHANGED <<agentVars, over, wired>>
 
-\* the silent step: the request takes effect
-TServeWired(c) == /\ ts[c].st = "got"
+\* the silent step: the request takes effect.  Without loss of generality it is taken just before an event that
+\* needs it (a srvwrite or a ret): moving an atomic step later past calls, reads and announcements changes nothing.
+Observing == l <= Len(Trace) /\ Trace[l].ev \in {"srvwrite", "ret"}
+TServeWired(c) == /\ Observing /\ ts[c].st = "got"
                   /\ Serve(ts[c].req)
                   /\ ts' = [ts EXCEPT ![c].st = "served", ![c].rep = ReplyFor(ts[c].req, last')]
                   /\ tc' = IF ts[c].p = 0 THEN tc
                             ELSE [tc EXCEPT ![c][ts[c].p].st = "lin", ![c][ts[c].p].rep = ReplyFor(ts[c].req, last')]
                   /\ UNCHANGED <<wired, over, orph, l>>
-TServeOpaque(c, p) == /\ ~wired[c] /\ tc[c][p].st = "called" /\ tc[c][p].req.op \notin FrameErr
+TServeOpaque(c, p) == /\ Observing /\ ~wired[c] /\ tc[c][p].st = "called" /\ tc[c][p].req.op \notin FrameErr
                       /\ Serve(tc[c][p].req)
                       /\ tc' = [tc EXCEPT ![c][p].st = "answered", ![c][p].rep = ReplyFor(tc[c][p].req, last')]
                       /\ UNCHANGED <<ts, wired, over, orph, l>>
 \* a request abandoned by its caller on an opaque connection takes effect after all
-TServeOrphan(c) == /\ ~wired[c]
+TServeOrphan(c) == /\ Observing /\ ~wired[c]
                    /\ \E i \in 1..Len(orph[c]) : Serve(orph[c][i]) /\ orph' = [orph EXCEPT ![c] = RemoveAt(@, i)]
                    /\ UNCHANGED <<tc, ts, wired, over, l>>
 
